@@ -5,7 +5,7 @@
    [wfm r c M] says that M has r rows of length c; [ratio dim anis k] is the k-th entry of (1, anis') where anis'
    is the padded ratio list set_anis dim anis; [sumf n f] = f 0 + ... + f (n-1). *)
 From Coq Require Import Reals List.
-From GS Require Import Num Loops C12_Model C12_Mat C12_Bridge C12_Proofs C12_Proofs2 C12_Proofs3.
+From GS Require Import Num Loops C12_Model C12_Mat C12_Bridge C12_Proofs C12_Proofs2 C12_Proofs3 C12_Proofs4.
 Import ListNotations.
 Open Scope R_scope.
 
@@ -155,6 +155,41 @@ Theorem C12_len_scale_list_roundtrip : forall (dim : nat) (ls anis : list R),
     len_scale_vec Rops dim (nth 0 ls 0) an = edge_pad dim ls.
 Proof. exact len_scale_list_roundtrip. Qed.
 Print Assumptions C12_len_scale_list_roundtrip.
+
+(* documented plane order: xy, xz, yz, xv, yv, zv in 4-D; adding a dimension only APPENDS the planes (k, dim-1), so
+   the first no_of_angles (dim-1) planes of dimension dim are the planes of dimension dim-1, and plane k involves the
+   last axis exactly when k >= no_of_angles (dim-1) (what set_model_angles(temporal=True) relies on) *)
+Theorem C12_planes_order :
+  rotation_planes 4 = [(0, 1); (0, 2); (1, 2); (0, 3); (1, 3); (2, 3)]%nat /\
+  (forall n, rotation_planes (S (S n)) = rotation_planes (S n) ++ map (fun k => (k, S n)) (seq 0 (S n))) /\
+  (forall dim, firstn (no_of_angles (dim - 1)) (rotation_planes dim) = rotation_planes (dim - 1)) /\
+  (forall dim k, (k < no_of_angles dim)%nat ->
+     (snd (nth k (rotation_planes dim) (0, 0)%nat) = dim - 1)%nat <-> (no_of_angles (dim - 1) <= k)%nat).
+Proof. exact planes_order. Qed.
+Print Assumptions C12_planes_order.
+
+(* metric spatio-temporal model, spatial dimension m = n+1 >= 1, ANY angle list: the rotation is block diagonal, its
+   spatial block is the rotation of the purely spatial model with the same angles, the time axis is untouched *)
+Theorem C12_temporal_rotation_block : forall (n : nat) (angles : list R),
+  let m := S n in
+  let Rt := matrix_rotate Rops (S m) (set_model_angles Rops (S m) angles false true) in
+  let Rs := matrix_rotate Rops m angles in
+  (forall i j, (i < m)%nat -> (j < m)%nat -> mof Rt i j = mof Rs i j) /\
+  (forall i, (i < S m)%nat -> mof Rt i m = delta i m /\ mof Rt m i = delta m i).
+Proof. exact temporal_rotation_block. Qed.
+Print Assumptions C12_temporal_rotation_block.
+
+(* 3-D + time: yaw, pitch, roll act on space only *)
+Theorem C12_temporal_3d_plus_time : forall angles : list R,
+  let a := nth 0 angles 0 in let b := nth 1 angles 0 in let c := nth 2 angles 0 in
+  let Rt := matrix_rotate Rops 4 (set_model_angles Rops 4 angles false true) in
+  (forall i j, (i < 3)%nat -> (j < 3)%nat ->
+     mof Rt i j = mof (matmul Rops [[1; 0; 0]; [0; cos c; - sin c]; [0; sin c; cos c]]
+                        (matmul Rops [[cos b; 0; sin b]; [0; 1; 0]; [- sin b; 0; cos b]]
+                                     [[cos a; - sin a; 0]; [sin a; cos a; 0]; [0; 0; 1]])) i j) /\
+  (forall i, (i < 4)%nat -> mof Rt i 3%nat = delta i 3 /\ mof Rt 3%nat i = delta 3 i).
+Proof. exact temporal_3d_plus_time. Qed.
+Print Assumptions C12_temporal_3d_plus_time.
 
 Theorem C12_hypotheses_satisfiable :
   (0 < 3)%nat /\ Forall (fun a => 0 < a) [2; / 2] /\ wfm 3 2 [[1; 2]; [3; 4]; [5; 6]] /\
